@@ -238,6 +238,25 @@ def compare(ws, sch, rec, item, emit):
             why = "url-less: line"
         elif got["kind"] == "conv" and (got["value"] != c["value"] or got["exc"] not in ("ValueError", "DataConversionError")):
             why = "url-less: conversion-error-value"
+    if why is None and len(item["files"]) == 1 and not item["opts"]:
+        # the same file opened by the caller and handed over together with a URL for it: that URL is the resource's
+        import os
+        import ZConfig
+        given = "file:///zcv-given/%s" % os.path.basename(item["main"])
+        base = ws.materialise(item["files"])
+        try:
+            ZConfig.loadConfigFile(sch, open(os.path.join(base, item["main"]), encoding="utf-8", newline="\n"), given)
+            got = {"r": "ok"}
+        except Exception as e:
+            got = project.exc_outcome(e)
+        if got["r"] != "err":
+            why = "file+url: accepted"
+        elif got["kind"] not in c["kinds"]:
+            why = "file+url: error-kind"
+        elif got["line"] != c["line"]:
+            why = "file+url: line"
+        elif got.get("url") != given:
+            why = "file+url: resource"
     if why is None:
         return None
     return {"clause": why, "observed": got, "culprit": c,
